@@ -94,6 +94,14 @@ def gen_cases(tier, seed):
             numform = r.random()
             cases.append({"k": "for", "d": d.isoformat(), "h": h if with_time else None, "mi": mi if with_time else None,
                           "j": r.choice(["for", "für"]), "n": n, "u": u, "w": w, "word": numform < 0.2 and n <= 31})
+    # month arithmetic from the days that do not exist in every month: every N from 1 to 60 months from 29 Feb, 31 Jan, 31 Aug,
+    # 30 Nov and 31 Dec (the end is clipped to the target month's length, once, at the end of the addition)
+    for (y, mo, dd) in ((2020, 2, 29), (2024, 2, 29), (2021, 1, 31), (2023, 8, 31), (2022, 11, 30), (2019, 12, 31), (2016, 2, 29), (2025, 3, 31)):
+        for n in range(1, 61):
+            if tier != "thorough" and (n + y) % 3:
+                continue
+            cases.append({"k": "for", "d": date(y, mo, dd).isoformat(), "h": None, "mi": None, "j": "for" if n % 2 else "für", "n": n, "u": "months",
+                          "w": ("months" if n > 1 else "month") if n % 2 else ("monate" if n > 1 else "monat"), "word": False})
     # hour / minute durations that cross midnight at a month or year end (every field of the end has to roll over)
     for y in (2016, 2019, 2020, 2023, 2024, 2028):
         for (mo, dd) in ((12, 31), (2, 28), (2, 29), (11, 30), (1, 31), (4, 30)):
